@@ -24,38 +24,53 @@ func propC13(c *Ctx) {
 		f, _ := loadedField(stripConv(v))
 		return f == fTopics
 	}
-	// count test: (len(Topics) - 1) != numIndexed
-	countNe, countEq := cmpEdges(pl, func(b *ssa.BinOp) bool {
-		if b.Op != token.NEQ {
+	// The gate may be written in processLog or in a boolean helper it calls
+	// (`if !ig.declares(l) { return }`): both tests are located on the inlined
+	// view, and a helper contributes the edges on which its result is true
+	// when "true" implies the test passed inside it.
+	reg := NewRegion(pl)
+	aff := &affEnv{reg: reg}
+	// count test: len(Topics) == numIndexed + 1 in any arrangement (affine comparison)
+	isCountTest := func(b *ssa.BinOp) bool {
+		if b.Op != token.NEQ && b.Op != token.EQL {
 			return false
 		}
-		sub, ok := b.X.(*ssa.BinOp)
-		if !ok || sub.Op != token.SUB {
-			return false
+		d := aff.Of(b.X).sub(aff.Of(b.Y))
+		var kLen, kNum int64
+		nAtoms := 0
+		for a, k := range d.t {
+			if k == 0 {
+				continue
+			}
+			nAtoms++
+			if x, ok := aff.lens[a]; ok && isTopicsLoad(x) {
+				kLen = k
+			} else if v, ok := aff.vals[a]; ok && isLoadOfField(v, fNumIdx) {
+				kNum = k
+			}
 		}
-		n, okc := constInt(sub.Y)
-		arg, okl := lenArg(sub.X)
-		return okc && n == 1 && okl && isTopicsLoad(arg) && isLoadOfField(b.Y, fNumIdx)
-	})
-	ce, cn := cmpEdges(pl, func(b *ssa.BinOp) bool {
-		if b.Op != token.EQL {
-			return false
+		return nAtoms == 2 && ((kLen == 1 && kNum == -1 && d.c == -1) || (kLen == -1 && kNum == 1 && d.c == 1))
+	}
+	type gate struct {
+		fn *ssa.Function
+		ok []Edge // edges (in fn) on which the test passed
+	}
+	var countG, hashG []gate
+	for _, f := range reg.Funcs() {
+		ne, eq := cmpEdges(f, func(b *ssa.BinOp) bool { return b.Op == token.NEQ && isCountTest(b) })
+		_ = ne
+		e2, _ := cmpEdges(f, func(b *ssa.BinOp) bool { return b.Op == token.EQL && isCountTest(b) })
+		if es := append(append([]Edge{}, eq...), e2...); len(es) > 0 {
+			countG = append(countG, gate{f, es})
 		}
-		sub, ok := b.X.(*ssa.BinOp)
-		if !ok || sub.Op != token.SUB {
-			return false
-		}
-		n, okc := constInt(sub.Y)
-		arg, okl := lenArg(sub.X)
-		return okc && n == 1 && okl && isTopicsLoad(arg) && isLoadOfField(b.Y, fNumIdx)
-	})
-	countEq = append(countEq, ce...)
-	countNe = append(countNe, cn...)
+	}
 	// hash test: bytes.Equal(ig.sighash, Topics[0])
-	var hashEq []Edge
 	var hashCall *ssa.Call
-	for _, ci := range callsNamed(pl, "bytes.Equal") {
-		call := ci.(*ssa.Call)
+	for _, ci := range reg.Calls() {
+		call, isCall := ci.(*ssa.Call)
+		if !isCall || calleeName(call) != "bytes.Equal" {
+			continue
+		}
 		a0, a1 := stripConv(call.Call.Args[0]), stripConv(call.Call.Args[1])
 		isSig := func(v ssa.Value) bool { return isLoadOfField(v, fSig) }
 		isTopic0 := func(v ssa.Value) bool {
@@ -69,13 +84,67 @@ func propC13(c *Ctx) {
 		if (isSig(a0) && isTopic0(a1)) || (isSig(a1) && isTopic0(a0)) {
 			hashCall = call
 			t, _ := boolEdges(call)
-			hashEq = append(hashEq, t...)
+			hashG = append(hashG, gate{call.Parent(), t})
 		}
 	}
-	c.Check("R13.1", "processLog/count-test-exists", pl.Pos(), len(countEq) > 0, "len(Topics)-1 is compared with numIndexed")
-	c.Check("R13.1", "processLog/hash-test-exists", pl.Pos(), hashCall != nil, "Topics[0] is compared with the signature hash using bytes.Equal")
+	// lift the gates to processLog
+	liftGate := func(gs []gate, isTestValue func(ssa.Value) bool) []Edge {
+		var out []Edge
+		for _, g := range gs {
+			if g.fn == pl {
+				out = append(out, g.ok...)
+				continue
+			}
+			cs, _ := reg.site[g.fn].(*ssa.Call)
+			if cs == nil || cs.Parent() != pl {
+				continue
+			}
+			// the helper returns true only if the test passed
+			implies := true
+			for _, r := range returnsOf(g.fn) {
+				vals := returnValues(r)
+				if len(vals) != 1 {
+					implies = false
+					break
+				}
+				for _, lf := range phiLeaves(vals[0]) {
+					switch v := lf.Val.(type) {
+					case *ssa.Const:
+						if v.Value != nil && v.Value.String() == "true" && !guardedByEdges(g.fn, r, g.ok) {
+							implies = false
+						}
+					default:
+						if isTestValue != nil && isTestValue(lf.Val) {
+							continue // the result IS the test
+						}
+						if !guardedByEdges(g.fn, r, g.ok) {
+							implies = false
+						}
+					}
+				}
+			}
+			if implies {
+				t, _ := boolEdges(cs)
+				out = append(out, t...)
+			}
+		}
+		return out
+	}
+	countEq := liftGate(countG, nil)
+	hashEq := liftGate(hashG, func(v ssa.Value) bool { return hashCall != nil && v == ssa.Value(hashCall) })
+	c.Check("R13.1", "processLog/count-test-exists", pl.Pos(), len(countEq) > 0, "len(Topics) is compared with numIndexed + 1")
+	c.Check("R13.1", "processLog/hash-test-exists", pl.Pos(), hashCall != nil && len(hashEq) > 0, "Topics[0] is compared with the signature hash using bytes.Equal")
 	if hashCall != nil {
-		c.Check("R13.1", "processLog/count-before-topic0", hashCall.Pos(), guardedByEdges(pl, hashCall, countEq), "Topics[0] is read only after the count test passed (no index panic on an empty topic list)")
+		before := false
+		for _, g := range countG {
+			if g.fn == hashCall.Parent() && guardedByEdges(g.fn, hashCall, g.ok) {
+				before = true
+			}
+		}
+		if !before && reg.Lift(hashCall) != nil {
+			before = guardedByEdges(pl, reg.Lift(hashCall), countEq)
+		}
+		c.Check("R13.1", "processLog/count-before-topic0", hashCall.Pos(), before, "Topics[0] is read only after the count test passed (no index panic on an empty topic list)")
 	}
 	scan := w.Fn("dig", "(*Result).Scan")
 	dbt := w.Fn("dig", "dbtype")
@@ -273,20 +342,24 @@ func fieldIsOrLoad(v ssa.Value, f *types.Var) bool {
 // for every element unconditionally, calls elemFn on that element.
 func checkRangeAll(c *Ctx, rule string, fn *ssa.Function, over *types.Var, elemFn *ssa.Function, name string) {
 	var call *ssa.Call
-	for _, cl := range callsToFn(fn, elemFn) {
-		recv := cl.Call.Args[0]
-		s, idx, ok := elemOf(recv)
-		if !ok || !isInduction(idx) {
-			continue
-		}
-		if _, ch := fieldChain(s); len(ch) == 1 && ch[0] == over {
-			call = cl
+	reg := NewRegion(fn) // the loop may live in a helper that is handed the slice
+	for _, f := range reg.Funcs() {
+		for _, cl := range callsToFn(f, elemFn) {
+			recv := cl.Call.Args[0]
+			s, idx, ok := elemOf(recv)
+			if !ok || !isInduction(idx) {
+				continue
+			}
+			if _, ch := fieldChain(reg.Resolve(stripConv(s))); len(ch) == 1 && ch[0] == over {
+				call = cl
+			}
 		}
 	}
 	if call == nil {
 		c.Violation(rule, name+"/ranges-over-"+over.Name(), fn.Pos(), "does not call Signature() on the elements of ."+over.Name()+" (e.g. ranges over a filtered list)")
 		return
 	}
+	fn = call.Parent()
 	// unconditional inside the loop: the only branch between loop header and the call is the loop condition
 	// (and, for Input.Signature, the tuple test at function entry)
 	hdrBody := loopBodyEdges(fn, call)
@@ -309,7 +382,26 @@ func checkRangeAll(c *Ctx, rule string, fn *ssa.Function, over *types.Var, elemF
 	// the result is written to the builder
 	written := false
 	for _, ref := range *call.Referrers() {
-		if ci, ok := ref.(ssa.CallInstruction); ok && strings.HasSuffix(calleeName(ci), "strings.Builder).WriteString") {
+		if ci, ok := ref.(ssa.CallInstruction); ok && (strings.HasSuffix(calleeName(ci), "strings.Builder).WriteString") || calleeName(ci) == "builtin append") {
+			written = true
+		}
+		// collected for a later strings.Join: stored into the variadic slice of an append
+		if st, ok := ref.(*ssa.Store); ok && st.Val == ssa.Value(call) {
+			if ia, ok := st.Addr.(*ssa.IndexAddr); ok {
+				if al, ok := ia.X.(*ssa.Alloc); ok {
+					for _, r2 := range *al.Referrers() {
+						if sl, ok := r2.(*ssa.Slice); ok {
+							for _, r3 := range *sl.Referrers() {
+								if ci, ok := r3.(ssa.CallInstruction); ok && calleeName(ci) == "builtin append" {
+									written = true
+								}
+							}
+						}
+					}
+				}
+			}
+		}
+		if b, ok := ref.(*ssa.BinOp); ok && b.Op == token.ADD {
 			written = true
 		}
 	}
